@@ -450,6 +450,7 @@ func (client *client) readLoop() {
 			}
 		}
 		client.in <- packet
+		verifYield("read.enqueued")
 		<-client.connected
 		srv.statsManager.packetReceived(packet, client.opts.ClientID)
 		if client.server.config.Log.DumpPacket {
@@ -832,11 +833,14 @@ func (client *client) internalClose() {
 		if client.server.hooks.OnClosed != nil {
 			client.server.hooks.OnClosed(context.Background(), client, client.err)
 		}
+		verifYield("close.before_unregister")
 		client.unregister(client)
+		verifYield("close.before_stats")
 		client.server.statsManager.clientDisconnected(client.opts.ClientID)
 	}
 	putBufioReader(client.bufr)
 	putBufioWriter(client.bufw)
+	verifYield("close.before_closed")
 	close(client.closed)
 
 }
@@ -1469,6 +1473,7 @@ func (client *client) pollMessageHandler() {
 		if ids == nil {
 			return
 		}
+		verifYield("poll.ids")
 		ids, err = client.pollNewMessages(ids)
 		if err != nil {
 			return
@@ -1495,6 +1500,7 @@ func (client *client) serve() {
 	}()
 
 	if ok := client.connectWithTimeOut(); ok {
+		verifYield("serve.connected")
 		client.wg.Add(2)
 		go func() {
 			client.pollMessageHandler()
@@ -1507,6 +1513,7 @@ func (client *client) serve() {
 
 	}
 	readWg.Wait()
+	verifYield("serve.read_done")
 
 	if client.queueStore != nil {
 		qerr := client.queueStore.Close()
